@@ -23,7 +23,7 @@ What to produce: a change to the library source (not the tests) that
 Prefer a small diff (1–15 lines). One defect only.
 
 Facts about this sandbox you need:
-  * The installed pulser-core is 1.9.1 and the code base targets 1.8, so every test that constructs a backend end-to-end fails ALREADY before your change (Observable.__init__ needs `default_aggregation_method`). Baseline: from {wt} run `/venv/bin/python -m pytest -q -p no:cacheprovider --timeout=900 --continue-on-collection-errors -n 4 -rf 2>&1 | tail -80` (about 4-8 minutes) — expect exactly 364 passed, 69 failed on the unchanged tree. After your change the same 364 must still pass (compare the sets of failing test ids before/after, they must be identical).
+  * The installed pulser-core is 1.9.1 and the code base targets 1.8, so every test that constructs a backend end-to-end fails ALREADY before your change (Observable.__init__ needs `default_aggregation_method`). Baseline: from {wt} run `OMP_NUM_THREADS=2 MKL_NUM_THREADS=2 /venv/bin/python -m pytest -q -p no:cacheprovider --timeout=1800 --continue-on-collection-errors -n 3 -rf 2>&1 | tail -80` (10-25 minutes; the machine is shared, keep to -n 3 and the two *_NUM_THREADS=2 settings for every Python process you start; if `test_differentiation` or `test_zip_right_step_mpompo_accuracy` time out, rerun them alone) — expect exactly 364 passed, 69 failed on the unchanged tree. After your change the same 364 must still pass (compare the sets of failing test ids before/after, they must be identical).
   * To demonstrate behaviour end-to-end anyway, a demonstration script may (i) monkey-patch `pulser.backend.observable.Observable.__init__` to supply `default_aggregation_method=AggregationMethod.SKIP` when missing, and (ii) bypass Pulser's sampling by building `emu_base.pulser_adapter.SequenceData` by hand (fields: omega, delta, phi as complex128 tensors of shape (steps, atoms); interaction_matrix = `_InteractionMatrixCallable(full, masked, slm_end_time)`; qubit_ids; bad_atoms; lindblad_ops; state_prep_error; target_times (len steps+1, ns); eigenstates; hamiltonian_type) and calling `MPSBackend._run_from_sequence_data(sd, config)` / `SVBackend._run_from_sequence_data(sd, config)`, or by calling lower-level functions directly. No GPU is available (use gpu=False / num_gpus_to_use=0).
 
 Deliverables, all under /tmp/seed_{pid}/ :
